@@ -22,6 +22,8 @@ func init() {
 var kindText = map[string]string{"ha": ">s1", "hb": ">s2 some description", "ht": ">s3\ttabbed header", "hl": "> s4 after a blank", "hn": ">", "hs": "> ", "AC": "AC", "ac": "ac",
 	"N-": "N-", "GT": "GT", "A": "A", "AZ": "AZ", "bl": "", "sp": "  \t", "Ab": "AC "}
 
+var azTexts = []string{"AZ", "\rC", "A\x1f", "A*", "A\rC", "A1", "\x00A"}
+
 func renderKinds(vec map[string]interface{}) []byte {
 	if raw, ok := vec["raw"]; ok {
 		l := raw.([]interface{})
@@ -41,6 +43,11 @@ func renderKinds(vec map[string]interface{}) []byte {
 		t, ok := kindText[k.(string)]
 		if !ok {
 			die("unknown line kind %v", k)
+		}
+		if k.(string) == "AZ" {
+			// "a symbol outside the alphabet": a letter, a stray carriage return (not the one before the line feed), a control
+			// byte, punctuation, a digit - by position in the stream
+			t = azTexts[(i+len(ls))%len(azTexts)]
 		}
 		b.WriteString(t)
 		if i < len(ls)-1 || gBool(vec, "finalnl") {
